@@ -1,5 +1,5 @@
 import Gengo.Model.Inflect
-import Gengo.Model.InflectTables
+import Gengo.Gen.InflectTables
 namespace Gengo.Inflect
 
 /-- C20 `irregular_total` (repaired code): the irregular step never panics — whatever the
